@@ -4,7 +4,7 @@ from vt import chartgen as cg, qrun, qoracle, hosts
 
 def gen_case(rng, tier, want_acts=True, allow_defer=True, long_run=False, hosts_=('queued', 'queued', 'ao'),
              spied=(True,), instrumented=(True,), live=False, n_ops=None, clears=False):
-  spec = cg.gen_spec(rng, nmax=rng.choice([4, 8, 12]), side_acts=want_acts, name_style=rng.choice(cg.NAME_STYLES))
+  spec = cg.gen_spec(rng, nmax=rng.choice([4, 8, 12]), side_acts=want_acts, name_style=rng.choice(cg.NAME_STYLES), clause_queries=rng.random() < 0.3)
   if not allow_defer:
     for r in spec['react'].values():
       if 'acts' in r:
